@@ -129,6 +129,9 @@ class Interp:
         self.depth = 0
         self.spec_mode = 0
         self.quant_depth = 0
+        self.path_ghost_frames = {}      # ghost variable -> frame of the loop that owns it
+        self.root_frame = None           # body frame of the function under verification
+        self.moved_loop_depth = 0
 
     # ------------------------------------------------------------------ helpers
     def fresh(self, t, name):
@@ -405,6 +408,22 @@ class Interp:
         raise ReturnSig(self.eval(s.value, fr) if s.value is not None else NONE)
 
     def s_Assign(self, s, fr):
+        if isinstance(s.value, ast.ListComp) and len(s.targets) == 1 and isinstance(s.targets[0], ast.Name) \
+                and len(s.value.generators) == 1 and not s.value.generators[0].ifs:
+            # xs = [e for t in it]  where the function's contract still carries the invariant of the loop that used
+            # to build xs (a loop turned into a comprehension): read it back as  xs = []; for t in it: xs.append(e)
+            g = s.value.generators[0]
+            name = s.targets[0].id
+            app = ast.Expr(ast.Call(func=ast.Attribute(value=ast.Name(id=name, ctx=ast.Load()), attr="append", ctx=ast.Load()),
+                                    args=[s.value.elt], keywords=[]))
+            loop = ast.For(target=g.target, iter=g.iter, body=[app], orelse=[])
+            ast.fix_missing_locations(ast.copy_location(loop, s))
+            ast.fix_missing_locations(ast.copy_location(app, s))
+            if self.moved_loop_spec(loop, peek=True) is not None:
+                fr.locals[name] = VList([])
+                self.synthetic_loops = getattr(self, "synthetic_loops", set()) | {id(loop)}
+                self._keep = getattr(self, "_keep", []) + [loop]
+                return self.s_For(loop, fr)
         v = self.eval(s.value, fr)
         for t in s.targets:
             self.assign(t, v, fr)
@@ -492,6 +511,14 @@ class Interp:
         for t in s.targets:
             if isinstance(t, ast.Subscript):
                 o = self.force(self.eval(t.value, fr))
+                if isinstance(t.slice, ast.Slice):
+                    sl = t.slice
+                    if sl.lower is None and sl.upper is None and sl.step is None and isinstance(o, (VList, VSeq)) \
+                            and not isinstance(o, VTuple):
+                        # del x[:]  ==  x[:] = []  ==  x.clear()
+                        self.call_method(o, "clear", [], {})
+                        continue
+                    raise OutOfSubset("del of a slice")
                 k = self.eval(t.slice, fr)
                 self.delitem(o, k)
             elif isinstance(t, ast.Name):
@@ -668,20 +695,41 @@ class Interp:
         c = self.reg.contracts.get(fr.fdef.key) if fr.fdef else None
         if c is not None:
             spec = c.loops.get(ordn)
+        fn = fr.fdef.key if fr.fdef else "?"
+        if spec is None and (c is None or id(s) in getattr(self, "synthetic_loops", ())):
+            # a loop inside an inlined helper: the function under verification may have had this very loop in its
+            # own body when its contract was written (extract-method refactoring): same iterated expression /
+            # same condition => same sidecar invariant, which is still proved here, on the loop as it is now
+            moved = self.moved_loop_spec(s)
+            if moved is not None:
+                fn, ordn, spec = moved
+                self.moved_loop_depth += 1     # stays on for the rest of the path (post-loop clauses see the ghosts too)
         if spec is None:
             eng = getattr(self.reg, "cluster_engine", None)
             if eng is not None:
                 return eng.cluster_loop(self, s, fr, it)
+            if self.desugar_simple_for(s, fr):
+                return
             raise OutOfSubset(f"loop #{ordn} in {fr.fdef.key if fr.fdef else '?'} has no invariant")
         header = ast.unparse(s.test) if isinstance(s, ast.While) else f"for {ast.unparse(s.target)} in {ast.unparse(s.iter)}"
+        alias = {}
         if spec.get("header") and spec["header"] != header:
             # documentation only: a refactored header keeps its invariant (which must still be proved)
-            self.reg.note(f"loop #{ordn} of {fr.fdef.key}: header is now {header!r} (contract was written for {spec['header']!r})")
-        fn = fr.fdef.key
+            self.reg.note(f"loop #{ordn} of {fn}: header is now {header!r} (contract was written for {spec['header']!r})")
+            alias = loop_target_aliases(spec["header"], s)
         for nm, ty in spec.get("retype", {}).items():
             self.retype_local(fr, nm, ty)
         idxname = spec.get("index", "_i")
         ghost_pre = {}
+        _eval_spec = self.eval_spec
+
+        def eval_spec_aliased(src, fr_, **kw):
+            # the invariant names the loop variables as the contract's header does; a renamed variable is the same thing
+            for old_n, new_n in alias.items():
+                v_ = fr_.lookup(new_n)
+                if v_ is not None:
+                    fr_.locals[old_n] = v_
+            return _eval_spec(src, fr_, **kw)
         # loop-entry snapshot for 'at_entry(...)' in invariants
         entry = self.snapshot_frame(fr)
         if it is not None:
@@ -693,9 +741,10 @@ class Interp:
                 # python iterates the live list; contracts must say the body does not change it
                 pass
         for gname, gexpr in spec.get("ghost_init", {}).items():
-            fr.locals[gname] = self.eval_spec(gexpr, fr, entry=entry)
+            fr.locals[gname] = eval_spec_aliased(gexpr, fr, entry=entry)
+            self.path_ghost_frames[gname] = fr
         for i, inv in enumerate(spec["invariant"]):
-            self.ctx.prove(self.truth(self.eval_spec(inv, fr, entry=entry)), f"{fn}#loop{ordn}.inv{i}.entry",
+            self.ctx.prove(self.truth(eval_spec_aliased(inv, fr, entry=entry)), f"{fn}#loop{ordn}.inv{i}.entry",
                            {"kind": "loop-entry", "src": inv})
         # havoc
         targets = set(spec.get("modifies", []))
@@ -712,7 +761,7 @@ class Interp:
         for tg in sorted(targets, key=str):
             self.havoc_target(tg, fr)
         for inv in spec["invariant"]:
-            self.ctx.assume(self.truth(self.eval_spec(inv, fr, entry=entry)))
+            self.ctx.assume(self.truth(eval_spec_aliased(inv, fr, entry=entry)))
         # loop condition
         if it is None:
             cond = self.truth(self.eval(s.test, fr))
@@ -755,6 +804,9 @@ class Interp:
         if enter:
             self.ctx.cover(f"{fn}#loop{ordn}.body")
             self.ctx.event("loop-body-start", ordn)
+            for old_n, new_n in alias.items():
+                if fr.lookup(new_n) is not None:
+                    fr.locals[old_n] = fr.lookup(new_n)
             iter_start = self.snapshot_frame(fr)
             fr.iter_start = iter_start
             try:
@@ -771,18 +823,93 @@ class Interp:
                     d = fr.locals["_done"]
                     fr.locals["_done"] = VSet(z3.Store(d.z, to_z3(cur, it.elem), True), it.elem)
             for upd_name, upd in spec.get("ghost_update", {}).items():
-                fr.locals[upd_name] = self.eval_spec(upd, fr, entry=entry)
+                fr.locals[upd_name] = eval_spec_aliased(upd, fr, entry=entry)
             for i, be in enumerate(spec.get("body_ensures", [])):
-                self.ctx.prove(self.truth(self.eval_spec(be, fr, entry=entry, extra={"__iter_start": iter_start})),
+                self.ctx.prove(self.truth(eval_spec_aliased(be, fr, entry=entry, extra={"__iter_start": iter_start})),
                                f"{fn}#loop{ordn}.body{i}", {"kind": "loop-body", "src": be})
             for i, inv in enumerate(spec["invariant"]):
-                self.ctx.prove(self.truth(self.eval_spec(inv, fr, entry=entry)), f"{fn}#loop{ordn}.inv{i}.preserved",
+                self.ctx.prove(self.truth(eval_spec_aliased(inv, fr, entry=entry)), f"{fn}#loop{ordn}.inv{i}.preserved",
                                {"kind": "loop-preserve", "src": inv})
             raise PathEnd("loop cut")
         else:
             self.ctx.cover(f"{fn}#loop{ordn}.exit")
             if hasattr(s, "orelse") and s.orelse:
                 self.exec_block(s.orelse, fr)
+
+    def desugar_simple_for(self, s, fr):
+        """a for loop without a sidecar invariant whose body is one call per element, or one append per element,
+        is the comprehension it spells out:   for x in xs: f(x)          ==  [f(x) for x in xs]
+                                              for x in xs: ys.append(e)  ==  ys.extend([e for x in xs])
+        (no break/continue/else, the loop variable is a plain name, ys does not mention it); the comprehension
+        models - and their obligations - then apply unchanged"""
+        if not isinstance(s, ast.For) or s.orelse or len(s.body) != 1 or not isinstance(s.target, ast.Name):
+            return False
+        st = s.body[0]
+        if not (isinstance(st, ast.Expr) and isinstance(st.value, ast.Call)):
+            return False
+        call = st.value
+        gen = ast.comprehension(target=s.target, iter=s.iter, ifs=[], is_async=0)
+        tname = s.target.id
+        if isinstance(call.func, ast.Attribute) and call.func.attr == "append" and len(call.args) == 1 and not call.keywords \
+                and not any(isinstance(n, ast.Name) and n.id == tname for n in ast.walk(call.func.value)):
+            elt = call.args[0]
+            if isinstance(elt, ast.Name) and elt.id == tname:
+                vals = self.eval(s.iter, fr)        # ys.extend(xs)
+            else:
+                comp = ast.ListComp(elt=elt, generators=[gen])
+                ast.fix_missing_locations(ast.copy_location(comp, s))
+                vals = self.eval(comp, fr)
+            recv = self.force(self.eval(call.func.value, fr))
+            valsf = self.force(vals)
+            if isinstance(recv, VList) and not isinstance(recv, VTuple) and isinstance(valsf, VSeq) \
+                    and isinstance(call.func.value, (ast.Name, ast.Attribute)):
+                # a list of concrete length grows by a sequence of symbolic length: it becomes a symbolic sequence
+                ty = T("seq", [valsf.elem])
+                nv = VSeq(z3.Concat(to_z3(recv, ty), valsf.z) if recv.items else valsf.z, valsf.elem)
+                tgt = copy.copy(call.func.value)
+                tgt.ctx = ast.Store()
+                self.assign(tgt, nv, fr)
+            else:
+                self.call_method(recv, "extend", [vals], {})
+            self.reg.note(f"loop at line {s.lineno}: read as ys.extend([... for {tname} in ...])")
+            return True
+        comp = ast.ListComp(elt=call, generators=[gen])
+        ast.fix_missing_locations(ast.copy_location(comp, s))
+        self.eval(comp, fr)
+        self.reg.note(f"loop at line {s.lineno}: read as the comprehension [{ast.unparse(call)} for {tname} in ...]")
+        return True
+
+    def moved_loop_spec(self, s, peek=False):
+        cur = self.reg.contracts.get(self.reg.current) if getattr(self.reg, "current", None) else None
+        if cur is None or not cur.loops:
+            return None
+        try:
+            fd = cur.fdef
+        except Exception:
+            return None
+        if fd is None:
+            return None
+        own = set(static_loop_headers(fd))
+        here = loop_shape(s)
+        used = self.__dict__.setdefault("_moved_used", set())
+        cands = []
+        for ordn, spec in sorted(cur.loops.items()):
+            h = spec.get("header")
+            if not h or (fd.key, ordn) in used:
+                continue
+            shp = header_shape(h)
+            if shp is None or shp != here:
+                continue
+            if shp in own:
+                continue        # the function still has that loop itself
+            cands.append((fd.key, ordn, spec))
+        if len(cands) != 1:
+            return None
+        if peek:
+            return cands[0]
+        used.add(cands[0][:2])
+        self.reg.note(f"loop #{cands[0][1]} of {cands[0][0]} now lives in an inlined helper; its invariant is proved there")
+        return cands[0]
 
     def retype_local(self, fr, nm, ty):
         """give a concrete empty/literal container a symbolic representation of declared type"""
@@ -908,6 +1035,16 @@ class Interp:
         v = fr.lookup(name)
         if v is not None:
             return v
+        if (fr.spec is not None or self.spec_mode) and self.moved_loop_depth > 0 and self.root_frame is not None:
+            # a loop that moved into an inlined helper: its invariant may name the parameters of the function it came from
+            v = self.root_frame.lookup(name)
+            if v is not None:
+                return v
+        if (fr.spec is not None or self.spec_mode) and name in self.path_ghost_frames:
+            # a ghost variable of a loop that now lives in an inlined helper: visible to the clauses of the function
+            v = self.path_ghost_frames[name].locals.get(name)
+            if v is not None:
+                return v
         if fr.spec is not None or self.spec_mode:
             if name in self.reg.spec_funcs:
                 return VExt("spec:" + name)
@@ -1027,6 +1164,7 @@ class Interp:
         class's constructor initialises with a literal: an arbitrary value of that literal's type
         (over-approximation of every state the object can be in)"""
         cd = self.reg.repo_classes.get(o.cls)
+        cd0 = cd
         n = 0
         while cd is not None and n < 6:
             for mname in ("__init__", "__attrs_post_init__"):
@@ -1046,6 +1184,14 @@ class Interp:
                         if t is not None:
                             self.reg.note(f"{o.cls}.{attr}: not declared by the contract; arbitrary {t} (initialised with a literal in {mname})")
                             return self.fresh(t, f"self.{attr}")
+                    if isinstance(node, ast.Assign) and len(node.targets) == 1 and isinstance(node.targets[0], ast.Attribute) \
+                            and isinstance(node.targets[0].value, ast.Name) and node.targets[0].value.id == "self" \
+                            and node.targets[0].attr == attr:
+                        t = self.infer_container_type(cd0, attr, node.value)
+                        if t is not None:
+                            self.reg.note(f"{o.cls}.{attr}: not declared by the contract; arbitrary {t} (an empty container in "
+                                          f"{mname}; element types guessed from the stores in the class)")
+                            return self.fresh(t, f"self.{attr}")
             cd = self.base_classdef(cd)
             n += 1
         # assigned somewhere in the class but neither declared by the contract nor initialised with a
@@ -1060,6 +1206,109 @@ class Interp:
                             if isinstance(tg, ast.Attribute) and isinstance(tg.value, ast.Name) and tg.value.id == "self" \
                                     and tg.attr == attr:
                                 raise OutOfSubset(f"field {o.cls}.{attr} is read but not declared by the contract")
+        return None
+
+    # -- element types of a container field that a change has just introduced (the contract cannot declare it)
+    def infer_container_type(self, cd, attr, init):
+        """`self.<attr> = {}` / [] / set() / deque() in the constructor: the container starts empty; its element
+        types are guessed syntactically from every store `self.<attr>[K] = V`, `.append(V)`, `.add(V)`,
+        `.setdefault(K, V)` in the class.  A wrong or missing guess ends as a type clash or out-of-reach, never as a
+        proof: the value is an ARBITRARY container of that type (an over-approximation of every reachable state)."""
+        kind = None
+        if isinstance(init, ast.Dict) and not init.keys:
+            kind = "dict"
+        elif isinstance(init, ast.List) and not init.elts:
+            kind = "seq"
+        elif isinstance(init, ast.Call) and not init.args and not init.keywords and isinstance(init.func, ast.Name) \
+                and init.func.id in ("dict", "list", "set", "deque"):
+            kind = {"dict": "dict", "list": "seq", "set": "set", "deque": "seq"}[init.func.id]
+        elif isinstance(init, ast.Call) and not init.args and isinstance(init.func, ast.Attribute) and init.func.attr == "deque":
+            kind = "seq"
+        if kind is None:
+            return None
+        kts, vts = set(), set()
+
+        def is_field(e):
+            return isinstance(e, ast.Attribute) and e.attr == attr and isinstance(e.value, ast.Name) and e.value.id == "self"
+
+        for m in cd.methods.values():
+            for node in ast.walk(m.node):
+                if isinstance(node, ast.Assign):
+                    for tg in node.targets:
+                        if isinstance(tg, ast.Subscript) and is_field(tg.value):
+                            kts.add(self.guess_type(tg.slice, m, cd, attr))
+                            vts.add(self.guess_type(node.value, m, cd, attr))
+                elif isinstance(node, ast.Call) and isinstance(node.func, ast.Attribute) and is_field(node.func.value):
+                    if node.func.attr in ("append", "add", "appendleft") and len(node.args) == 1:
+                        vts.add(self.guess_type(node.args[0], m, cd, attr))
+                    elif node.func.attr == "setdefault" and len(node.args) == 2:
+                        kts.add(self.guess_type(node.args[0], m, cd, attr))
+                        vts.add(self.guess_type(node.args[1], m, cd, attr))
+        if None in kts or None in vts or len(vts) != 1:
+            return None
+        vt = next(iter(vts))
+        if kind == "dict":
+            if len(kts) != 1:
+                return None
+            return f"dict[{next(iter(kts))},{vt}]"
+        return f"{kind}[{vt}]"
+
+    def guess_type(self, e, m, cd, attr, depth=0):
+        if depth > 4:
+            return None
+        if isinstance(e, ast.Constant):
+            c = e.value
+            return "bool" if isinstance(c, bool) else "int" if isinstance(c, int) else "real" if isinstance(c, float) \
+                else "str" if isinstance(c, str) else "bytes" if isinstance(c, bytes) else None
+        if isinstance(e, ast.JoinedStr):
+            return "str"
+        if isinstance(e, ast.Tuple):
+            ts = [self.guess_type(x, m, cd, attr, depth + 1) for x in e.elts]
+            return None if None in ts else "tuple[" + ",".join(ts) + "]"
+        if isinstance(e, ast.BinOp) and isinstance(e.op, ast.Mod) and isinstance(e.left, ast.Constant) \
+                and isinstance(e.left.value, (str, bytes)):
+            return "str" if isinstance(e.left.value, str) else "bytes"
+        if isinstance(e, ast.BinOp) and isinstance(e.op, (ast.Add, ast.Sub, ast.Mult)):
+            a, b = self.guess_type(e.left, m, cd, attr, depth + 1), self.guess_type(e.right, m, cd, attr, depth + 1)
+            return a if a == b and a in ("int", "str", "bytes", "real") else None
+        c = self.reg.contracts.get(m.key)
+        if isinstance(e, ast.Name):
+            if c is not None and e.id in c.params:
+                return c.params[e.id]
+            got = set()
+            for node in ast.walk(m.node):
+                if isinstance(node, ast.Assign) and len(node.targets) == 1 and isinstance(node.targets[0], ast.Name) \
+                        and node.targets[0].id == e.id:
+                    # a read of the field itself (e.g. x = self.<attr>.get(k)) says nothing new
+                    if any(isinstance(n, ast.Attribute) and n.attr == attr for n in ast.walk(node.value)):
+                        continue
+                    got.add(self.guess_type(node.value, m, cd, attr, depth + 1))
+            return next(iter(got)) if len(got) == 1 else None
+        if isinstance(e, ast.Attribute) and isinstance(e.value, ast.Name) and e.value.id == "self":
+            if c is not None and c.self_fields and e.attr in c.self_fields:
+                return c.self_fields[e.attr]
+            return None
+        if isinstance(e, ast.Call):
+            if isinstance(e.func, ast.Name):
+                if e.func.id in ("len", "int"):
+                    return "int"
+                if e.func.id == "str":
+                    return "str"
+                if e.func.id == "bytes":
+                    return "bytes"
+                try:
+                    f = self.module_name(m.module, e.func.id)
+                except OutOfSubset:
+                    f = None
+                if isinstance(f, VFunc) and f.fdef is not None:
+                    cc = self.reg.contracts.get(f.fdef.key)
+                    if cc is not None and cc.returns:
+                        return cc.returns
+            if isinstance(e.func, ast.Attribute) and isinstance(e.func.value, ast.Name) and e.func.value.id == "self":
+                fm = self.find_method(cd.name, e.func.attr)
+                cc = self.reg.contracts.get(fm.key) if fm is not None else None
+                if cc is not None and cc.returns:
+                    return cc.returns
         return None
 
     def base_classdef(self, cd):
@@ -1153,11 +1402,13 @@ class Interp:
                     r = VStr(uf("hexfmt", IntS, IntS, StringS)(v.z, z3.IntVal(n)), "str")
                     r.hex_fmt = (v.z, n)
                     return r
-                if isinstance(v, VStr) and v.kind == "str" and p.conversion == -1 and p.format_spec is None:
+                plain = p.format_spec is None or spec_s == ""
+                if isinstance(v, VStr) and v.kind == "str" and p.conversion in (-1, 115) and (plain or spec_s == "s"):
                     parts.append(v.z)
-                elif isinstance(v, VInt) and p.conversion == -1 and p.format_spec is None:
-                    parts.append(int_to_str(v.z))
+                elif isinstance(v, VInt) and p.conversion in (-1, 115, 114) and (plain or (spec_s == "d" and p.conversion == -1)):
+                    parts.append(int_to_str(v.z))     # str(int) == repr(int) == format(int, "d")
                 else:
+                    self.ctx.note_imprecise(f"f-string field {ast.unparse(p)!r}")
                     parts.append(z3.String(self.ctx.namer("fmt")))
         if not parts:
             return VStr("")
@@ -1360,6 +1611,7 @@ class Interp:
                 if not out:
                     return VStr(z3.StringVal(""), fmt.kind)
                 return VStr(out[0] if len(out) == 1 else z3.Concat(*out), fmt.kind)
+        self.ctx.note_imprecise("%-format with an unmodelled directive or argument")
         return VStr(z3.String(self.ctx.namer("fmt")), fmt.kind)
 
     def e_Compare(self, e, fr):
@@ -1719,6 +1971,20 @@ class Interp:
         """[f(x) for x in xs] over a sequence of symbolic length, f under a total contract:
         the result is a sequence r of the same length with ensures_f(xs[i], r[i]) for all i
         (the callee's contract is all that is known; its requires are proved for every i)"""
+        if g.ifs and isinstance(g.target, ast.Name):
+            # [elt for x in xs if c]  ==  [elt for x in filter(lambda x: c, xs)]
+            from . import models as _models
+            test = g.ifs[0] if len(g.ifs) == 1 else ast.BoolOp(ast.And(), list(g.ifs))
+            lam = ast.Lambda(args=ast.arguments(posonlyargs=[], args=[ast.arg(arg=g.target.id)], kwonlyargs=[], kw_defaults=[],
+                                                defaults=[]), body=test)
+            ast.fix_missing_locations(ast.copy_location(lam, g.ifs[0]))
+            kept = _models.b_filter(self, [self.e_Lambda(lam, fr), xs], {}, fr)
+            if isinstance(e.elt, ast.Name) and e.elt.id == g.target.id:
+                return VSeqResult(kept.z, kept.elem) if isinstance(kept, VSeq) else kept.items
+            g2 = ast.comprehension(target=g.target, iter=g.iter, ifs=[], is_async=0)
+            if isinstance(kept, VSeq):
+                return self.comp_map(e, g2, kept, fr)
+            raise OutOfSubset("filtered comprehension over a concrete list")
         if g.ifs or not (isinstance(e.elt, ast.Call) and len(e.elt.args) == 1 and not e.elt.keywords
                          and isinstance(e.elt.args[0], ast.Name) and isinstance(g.target, ast.Name)
                          and e.elt.args[0].id == g.target.id):
@@ -1770,11 +2036,19 @@ class Interp:
         for d in self.reg.drop_calls:
             if src == d or src.startswith(d + "."):
                 return NONE
+        f = None
         if self.spec_mode or fr.spec is not None:
             r = self.spec_call(e, fr, src)
             if r is not _NOCONST:
                 return r
-        f = self.eval(e.func, fr)
+            if isinstance(e.func, ast.Name) and e.func.id in self.reg.spec_funcs:
+                # a body local that happens to carry the name of a spec function (e.g. after a harmless renaming)
+                # is data, not the function the clause calls
+                loc = fr.lookup(e.func.id)
+                if loc is not None and not isinstance(loc, (VFunc, VClass, VExt, VBoundExt)):
+                    f = VExt("spec:" + e.func.id)
+        if f is None:
+            f = self.eval(e.func, fr)
         args = []
         packed = False
         for a in e.args:
@@ -2143,6 +2417,68 @@ def _parse_cache(src):
     if src not in _pcache:
         _pcache[src] = ast.parse(src.strip(), mode="eval")
     return _pcache[src]
+
+
+def loop_shape(s):
+    """what a loop runs over, ignoring the names of its loop variables"""
+    if isinstance(s, ast.While):
+        return "while " + ast.unparse(s.test)
+    return "for " + ast.unparse(s.iter)
+
+
+def header_shape(h):
+    try:
+        if h.lstrip().startswith("for "):
+            node = ast.parse(h.strip().rstrip(":") + ":\n    pass").body[0]
+            return loop_shape(node)
+        return "while " + ast.unparse(ast.parse(h.strip(), mode="eval").body)
+    except SyntaxError:
+        return None
+
+
+def static_loop_headers(fd):
+    out = []
+
+    def walk(n, top):
+        for ch in ast.iter_child_nodes(n):
+            if isinstance(ch, (ast.FunctionDef, ast.Lambda, ast.AsyncFunctionDef)) and not top:
+                continue
+            if isinstance(ch, (ast.For, ast.While)):
+                out.append(loop_shape(ch))
+            walk(ch, False)
+    walk(fd.node, True)
+    return out
+
+
+def loop_target_aliases(header, s):
+    """{name in the contract's header: name in the loop as it is now}, position by position; only for names the
+    loop statement itself no longer mentions (otherwise the old name means something else now)"""
+    if not isinstance(s, ast.For) or not header.lstrip().startswith("for "):
+        return {}
+    try:
+        old = ast.parse(header.strip().rstrip(":") + ":\n    pass").body[0]
+    except SyntaxError:
+        return {}
+    if ast.unparse(old.iter) != ast.unparse(s.iter):
+        return {}
+
+    def names(t):
+        if isinstance(t, ast.Name):
+            return [t.id]
+        if isinstance(t, (ast.Tuple, ast.List)):
+            out = []
+            for e in t.elts:
+                r = names(e)
+                if r is None:
+                    return None
+                out.extend(r)
+            return out
+        return None
+    a, b = names(old.target), names(s.target)
+    if a is None or b is None or len(a) != len(b):
+        return {}
+    mentioned = {n.id for n in ast.walk(s) if isinstance(n, ast.Name)}
+    return {o: n for o, n in zip(a, b) if o != n and o not in mentioned}
 
 
 def static_loop_ordinal(fd, node):
